@@ -34,6 +34,9 @@ Template = TypeVar("Template", bound=Union[ast.AST, type, Collection[Union[ast.A
 # "kind" is needed on PyPy, but not on CPython. This is because ast.Constant types will have
 # a kind=None set by default on CPython, but not on PyPy. (pypy3.10-7.3.12)
 DEFAULT_IGNORE = frozenset(("lineno", "end_lineno", "col_offset", "end_col_offset", "kind"))
+# The searches compare positions where a template has them, but like match_template() and
+# walk_sequence() they do not tell "a" from u"a".
+SEARCH_IGNORE = frozenset(("kind",))
 
 __all__ = ["Wildcard", "ZeroOrOne", "ZeroOrMany", "OneOrMany", "match_template", "Range", "Match"]
 
@@ -446,7 +449,7 @@ def _candidate_types(template: Template) -> type | Tuple:
 
 
 def walk_wildcard(
-    scope: ast.AST, node_template: Template, ignore: Collection[str] = ()
+    scope: ast.AST, node_template: Template, ignore: Collection[str] = SEARCH_IGNORE
 ) -> Iterable[Tuple[ast.AST, ...]]:
     """Iterate over all nodes in scope that match a particular type or template.
 
@@ -478,7 +481,9 @@ def walk_wildcard(
                     yield template_match
 
 
-def walk(scope: ast.AST, template: Template, ignore: Collection[str] = ()) -> Iterable[ast.AST]:
+def walk(
+    scope: ast.AST, template: Template, ignore: Collection[str] = SEARCH_IGNORE
+) -> Iterable[ast.AST]:
     """Iterate over all nodes in scope that match a particular type or template.
 
     The `node_template` argument supports the same syntax as in match_template(), but
